@@ -71,6 +71,11 @@ CHECKS = {
         text="Every observed rule call (direct and through validate_ast) is decided by the reference depth: error exactly when depth > limit, nothing and no exception otherwise (incl. flat operations), filter restricted to the named operation.",
         note="Depth convention from the rule's docstring (its example measures 4). Boolean directive variables are always supplied.",
         design="4/C19"),
+    "C17": dict(
+        technique="runtime monitor on the response stream of py_gql.execution.subscribe under the asyncio runtime: counting event sources (async generators and __anext__ classes with injected await points), per-event comparison with the reference executor run on that event as root, refusal cases with consumed-event counters",
+        text="Every consumed stream is checked for length, order and termination against its source and for per-event isolation of data and errors; the four refusal classes must raise the documented exception before any event is consumed.",
+        note="Sequential async-for consumption; events are root objects of the subscription type whose identity determines the world's outcomes, so a result mapped to the wrong event is distinguishable.",
+        design="4/C17"),
 }
 
 PENDING_REASON = "check not built yet in this session (planned: see DESIGN.md section 4); no claim is made"
